@@ -87,10 +87,15 @@ extern "C" task co_consumer(generator<int> *g, int style) {
 }
 
 extern "C" {
-// next()/value() loop; the end indication is sticky (asking again neither resumes the body nor yields anything)
+// next()/value() loop; the end indication is sticky (asking again neither resumes the body nor yields anything);
+// after the end value() has nothing to hand out
 int drive_next(int k, int a, int b, int c) {
     g_frame_kind = FK_VALS; auto g = gen_vals(k, a, b, c);
-    guarded([&] { while (g.next()) obs(g.value()); g_end++; if (g.next()) g_end += 100; if (!g.done()) g_end += 1000; });
+    guarded([&] {
+        for (;;) { auto n = g.next(); if (!n) break; if (!n) g_other_exc++;    // converting the same awaitable again neither steps nor changes its mind
+                   obs(g.value()); }
+        g_end++; if (g.next()) g_end += 100; if (!g.done()) g_end += 1000;
+        try { (void)g.value(); g_end += 10000; } catch (const value_not_ready_exception &) {} });   // no (stale) value after the end
     return 1; }
 // range-for
 int drive_range_for(int k, int a, int b, int c) {
